@@ -412,6 +412,11 @@ pub struct FileSpec {
     pub path: String,
     pub items: Vec<Item>,
     pub crlf: bool,
+    /// 1: a carriage return that belongs to no CRLF pair sits directly before every entry but the
+    /// first (what a broken line-end conversion leaves behind). It separates entries like any other
+    /// line-end character and starts no line: line numbers count line feeds.
+    #[serde(default)]
+    pub stray_cr: u8,
 }
 
 /// Where an entry landed in the rendered text.
@@ -431,6 +436,7 @@ impl FileSpec {
             path: path.to_string(),
             items: Vec::new(),
             crlf: false,
+            stray_cr: 0,
         }
     }
 
@@ -449,6 +455,9 @@ impl FileSpec {
             for _ in 0..it.blank {
                 s.push_str(nl);
                 line += 1;
+            }
+            if self.stray_cr == 1 && i > 0 && it.blank >= 1 {
+                s.push('\r');
             }
             let byte_start = s.len();
             let first_line = line;
